@@ -282,7 +282,13 @@ pub fn c08(tier: Tier) -> i32 {
         let ex = model::explore_counted(c, &dfas, &CanonMon { sat: 3 }, &alphabet);
         let strings = model::access_strings(&ex);
         bump(c, "laws_checked", 1);
-        let mut reported = false;
+        // every disagreeing canonical state is classified (not only the first one): a witness
+        // that no recorded finding explains is reported even if a shorter one is explained
+        let mut reported: std::collections::BTreeSet<Option<String>> = std::collections::BTreeSet::new();
+        let mut d1_dfas: Option<Option<(Dfa, Dfa)>> = None;
+        let mut mirror_lhs: Option<Option<Dfa>> = None;
+        let mut mirror_rhs: Option<Option<Dfa>> = None;
+        let mut disagreements = 0u32;
         for (i, (t, cs)) in ex.states.iter().enumerate() {
             if !cs.is_canonical_end() {
                 continue;
@@ -300,8 +306,8 @@ pub fn c08(tier: Tier) -> i32 {
                 bump(c, "rhs_model_mismatches", 1);
                 rep.note(format!("C08 rhs model mismatch `{}` path {:?}: model {} real {} (rhs {})", e.text, p, rhs_model, rhs_real, rhs));
             }
-            if lhs_real != rhs_real && !reported {
-                reported = true;
+            if lhs_real != rhs_real && disagreements < 64 {
+                disagreements += 1;
                 // classify
                 let stripped_empty = Path::new(p).strip_prefix(&prefix).map_or(false, |r| r.as_os_str().is_empty());
                 let sole_rooted_tree = {
@@ -311,29 +317,33 @@ pub fn c08(tier: Tier) -> i32 {
                 // D1: attributed only if the reference with exactly that deviation predicts
                 // the implementation's answer and the plain reference does not
                 let d1 = {
-                    let without = refmodel::lang::reference(&e.ast, &refmodel::lang::Deviations { d4: true, ..Default::default() });
-                    let with = refmodel::lang::reference(&e.ast, &refmodel::lang::Deviations { d1: true, d4: true, ..Default::default() });
-                    match (without, with) {
-                        (refmodel::lang::Spec::Specified(a), refmodel::lang::Spec::Specified(b)) => {
-                            match (Dfa::new(&a.regex), Dfa::new(&b.regex)) {
-                                (Ok(a), Ok(b)) => a.accepts(p) != lhs_real && b.accepts(p) == lhs_real,
-                                _ => false,
-                            }
-                        },
-                        _ => false,
-                    }
+                    let dfas = d1_dfas.get_or_insert_with(|| {
+                        let without = refmodel::lang::reference(&e.ast, &refmodel::lang::Deviations { d4: true, ..Default::default() });
+                        let with = refmodel::lang::reference(&e.ast, &refmodel::lang::Deviations { d1: true, d4: true, ..Default::default() });
+                        match (without, with) {
+                            (refmodel::lang::Spec::Specified(a), refmodel::lang::Spec::Specified(b)) => {
+                                match (Dfa::new(&a.regex), Dfa::new(&b.regex)) {
+                                    (Ok(a), Ok(b)) => Some((a, b)),
+                                    _ => None,
+                                }
+                            },
+                            _ => None,
+                        }
+                    });
+                    dfas.as_ref().map_or(false, |(a, b)| a.accepts(p) != lhs_real && b.accepts(p) == lhs_real)
                 };
                 // D4: the position a nested tree wildcard is encoded for changes when the prefix
                 // tokens are removed; attributed only if the encoder's mirror predicts both sides
                 let d4 = refmodel::astops::nested_tree(&e.ast, false) && {
-                    let lhs_pred = Dfa::new(&refmodel::lang::mirror_regex(&e.ast)).map_or(false, |d| d.accepts(p) == lhs_real);
+                    let ml = mirror_lhs.get_or_insert_with(|| Dfa::new(&refmodel::lang::mirror_regex(&e.ast)).ok());
+                    let lhs_pred = ml.as_ref().map_or(false, |d| d.accepts(p) == lhs_real);
                     let rhs_pred = match (&postfix, Path::new(p).strip_prefix(&prefix)) {
                         (Some(post), Ok(rem)) => {
                             let rem = rem.to_string_lossy().to_string();
-                            syntax::parse(&post.to_string())
-                                .ok()
-                                .and_then(|a| Dfa::new(&refmodel::lang::mirror_regex(&a)).ok())
-                                .map_or(false, |d| d.accepts(&rem) == post.is_match(rem.as_str()))
+                            let mr = mirror_rhs.get_or_insert_with(|| {
+                                syntax::parse(&post.to_string()).ok().and_then(|a| Dfa::new(&refmodel::lang::mirror_regex(&a)).ok())
+                            });
+                            mr.as_ref().map_or(false, |d| d.accepts(&rem) == post.is_match(rem.as_str()))
                         },
                         _ => false,
                     };
@@ -360,9 +370,12 @@ pub fn c08(tier: Tier) -> i32 {
                 else {
                     None
                 };
+                if !reported.insert(class.clone()) {
+                    continue;
+                }
                 rep.alarm(Alarm {
-                    class,
-                    key: format!("law {}", e.text),
+                    class: class.clone(),
+                    key: format!("law {} {:?}", e.text, class),
                     msg: format!(
                         "`{}` = ({:?}, {:?}): path {:?}: original matches = {}, prefix stripped and postfix matches = {}",
                         e.text,
